@@ -412,25 +412,32 @@ def check_bundled(res, model, rel, fmt):
     res.count("bundled files")
 
 
-def check_multi(res, model, rng, tag):
+def check_multi(res, model, rng, tag, given=None):
     """several files in ONE network (filelist of two or three files, and add_reaction_from_file called in turn): every file
     is decoded as if it were read alone - nothing of a file (KROME @format / @var / @common, a reader's settings) reaches the next"""
-    k = rng.randint(2, 3)
-    fmts = [rng.choice(["krome", "krome", "kida", "umist", "naunet", "uclchem"]) for _ in range(k)]
-    if rng.random() < 0.6:
-        fmts[0] = fmts[1] = "krome"
     files, d = [], ol.scratch_dir()
-    for j, fmt in enumerate(fmts):
-        while True:
-            lines, abstract = make_file(rng, fmt, rng.randint(1, 6))
-            if j == 0 or not any(l.startswith("@format") for l in lines):
-                break                      # later KROME files carry no directive of their own: the default layout applies
-        if fmt == "krome" and j + 1 < k and rng.random() < 0.7:
-            lines.append("@format:" + rng.choice(KFORMATS))       # the file ends under a non-default layout
-            abstract.append(None)
-        p = d / f"net{j}.{fmt}"
-        p.write_text("\n".join(lines) + "\n")
-        files.append((p, fmt, lines, abstract))
+    if given is not None:
+        fmts = [f for f, _ in given]
+        for j, (fmt, lines) in enumerate(given):
+            p = d / f"net{j}.{fmt}"
+            p.write_text("\n".join(lines) + "\n")
+            files.append((p, fmt, lines, None))
+    else:
+        k = rng.randint(2, 3)
+        fmts = [rng.choice(["krome", "krome", "kida", "umist", "naunet", "uclchem"]) for _ in range(k)]
+        if rng.random() < 0.6:
+            fmts[0] = fmts[1] = "krome"
+        for j, fmt in enumerate(fmts):
+            while True:
+                lines, abstract = make_file(rng, fmt, rng.randint(1, 6))
+                if j == 0 or not any(l.startswith("@format") for l in lines):
+                    break                      # later KROME files carry no directive of their own: the default layout applies
+            if fmt == "krome" and j + 1 < k and rng.random() < 0.7:
+                lines.append("@format:" + rng.choice(KFORMATS))       # the file ends under a non-default layout
+                abstract.append(None)
+            p = d / f"net{j}.{fmt}"
+            p.write_text("\n".join(lines) + "\n")
+            files.append((p, fmt, lines, abstract))
     case = {"kind": "c07-multi", "files": [[fmt, lines] for _, fmt, lines, _ in files]}
     res.count("multi-file networks")
     try:
@@ -514,6 +521,8 @@ def replay(rp, info):
     res = fw.Result("C07", "quick", 0)
     model = fw.Model() if info["ok"] else None
     case = rp.get("case") or {}
+    if case.get("kind") == "c07-multi":
+        check_multi(res, model, None, "replay", given=[(f, l) for f, l in case["files"]])
     if case.get("kind") == "c07":
         check_file(res, model, case["format"], case["lines"], None, "replay", newline=case.get("newline", "\n"), final_newline=case.get("final_newline", True))
     for v in res.violations:
